@@ -42,7 +42,10 @@ fn kebab(s: &str) -> String {
 fn field(dbg: &str, name: &str) -> String {
     let key = format!("{name}: ");
     match dbg.find(&key) {
-        Some(i) => dbg[i + key.len()..].chars().take_while(|c| c.is_alphanumeric()).collect(),
+        Some(i) => dbg[i + key.len()..]
+            .chars()
+            .take_while(|c| c.is_alphanumeric())
+            .collect(),
         None => "?".into(),
     }
 }
@@ -62,7 +65,14 @@ pub fn show_err(e: &Error) -> String {
                     )
                 })
                 .collect();
-            format!("rpcerr:{}", if v.is_empty() { ".".into() } else { v.join(";") })
+            format!(
+                "rpcerr:{}",
+                if v.is_empty() {
+                    ".".into()
+                } else {
+                    v.join(";")
+                }
+            )
         }
         _ => "err".into(),
     }
@@ -97,12 +107,15 @@ pub async fn outcome_raw(kind: &str, reply_of: impl Fn(&str) -> Vec<u8>) -> Stri
         }};
     }
     match kind {
-        "empty" => go!(s.rpc::<Commit, _>(|b| b.finish()), |_v: ()| "ok".to_string()),
-        "data" => go!(s.rpc::<Get, _>(|b| b.finish()), |v: netconf::message::rpc::operation::Opaque| format!(
-            "data:{}",
-            hexs(&v.to_string())
-        )),
-        "bare" => go!(s.rpc::<CloseConfiguration, _>(|b| b.finish()), |_v: ()| "ok".to_string()),
+        "empty" => go!(s.rpc::<Commit, _>(|b| b.finish()), |_v: ()| "ok"
+            .to_string()),
+        "data" => go!(
+            s.rpc::<Get, _>(|b| b.finish()),
+            |v: netconf::message::rpc::operation::Opaque| format!("data:{}", hexs(&v.to_string()))
+        ),
+        "bare" => go!(s.rpc::<CloseConfiguration, _>(|b| b.finish()), |_v: ()| {
+            "ok".to_string()
+        }),
         "load" => go!(
             s.rpc::<LoadConfiguration<Config<String, Text, Merge>>, _>(|b| b
                 .source(Config::new("x".to_string(), Text, Merge))
@@ -120,7 +133,12 @@ pub async fn outcome_raw(kind: &str, reply_of: impl Fn(&str) -> Vec<u8>) -> Stri
 pub enum Child {
     Ok,
     OkStartEnd,
-    Err { ty: &'static str, tag: &'static str, sev: &'static str, extra: u8 },
+    Err {
+        ty: &'static str,
+        tag: &'static str,
+        sev: &'static str,
+        extra: u8,
+    },
     Data(&'static str),
     Count(usize),
     Comment,
@@ -139,7 +157,14 @@ impl Child {
             Child::Comment => "cmt".into(),
             Child::Junk => "junk".into(),
             Child::Results(cs) => {
-                format!("R:{}", if cs.is_empty() { "_".into() } else { cs.iter().map(|c| c.token()).collect::<Vec<_>>().join("+") })
+                format!(
+                    "R:{}",
+                    if cs.is_empty() {
+                        "_".into()
+                    } else {
+                        cs.iter().map(|c| c.token()).collect::<Vec<_>>().join("+")
+                    }
+                )
             }
         }
     }
@@ -147,7 +172,12 @@ impl Child {
         match self {
             Child::Ok => "<ok/>".into(),
             Child::OkStartEnd => "<ok></ok>".into(),
-            Child::Err { ty, tag, sev, extra } => {
+            Child::Err {
+                ty,
+                tag,
+                sev,
+                extra,
+            } => {
                 let mut s = format!(
                     "<rpc-error><error-type>{ty}</error-type><error-tag>{tag}</error-tag><error-severity>{sev}</error-severity>"
                 );
@@ -197,7 +227,13 @@ pub fn doc_xml(id: &str, cs: &[Child]) -> String {
 fn alphabet(rng: &mut Rng) -> Vec<Child> {
     let e = |sev: &'static str, rng: &mut Rng| Child::Err {
         ty: *rng.pick(&["transport", "rpc", "protocol", "application"]),
-        tag: *rng.pick(&["operation-failed", "in-use", "bad-element", "lock-denied", "malformed-message"]),
+        tag: *rng.pick(&[
+            "operation-failed",
+            "in-use",
+            "bad-element",
+            "lock-denied",
+            "malformed-message",
+        ]),
         sev,
         extra: rng.below(16) as u8,
     };
@@ -215,7 +251,12 @@ fn alphabet(rng: &mut Rng) -> Vec<Child> {
     ]
 }
 
-fn seqs(alpha: &dyn Fn(&mut Rng) -> Vec<Child>, n_core: usize, maxlen: usize, rng: &mut Rng) -> Vec<Vec<Child>> {
+fn seqs(
+    alpha: &dyn Fn(&mut Rng) -> Vec<Child>,
+    n_core: usize,
+    maxlen: usize,
+    rng: &mut Rng,
+) -> Vec<Vec<Child>> {
     // exhaustive over the first n_core letters up to maxlen
     let mut out = vec![vec![]];
     let mut frontier: Vec<Vec<usize>> = vec![vec![]];
@@ -244,7 +285,17 @@ pub fn gen_docs(kind: &str, opts: &Opts, rng: &mut Rng) -> Vec<Vec<Child>> {
         // inner alphabet: ok, errE, errW, count(1), comment, count(0), count(2)
         let inner_alpha = |rng: &mut Rng| {
             let a = alphabet(rng);
-            vec![a[0].clone(), a[1].clone(), a[2].clone(), a[5].clone(), a[4].clone(), a[6].clone(), a[7].clone(), a[8].clone(), a[9].clone()]
+            vec![
+                a[0].clone(),
+                a[1].clone(),
+                a[2].clone(),
+                a[5].clone(),
+                a[4].clone(),
+                a[6].clone(),
+                a[7].clone(),
+                a[8].clone(),
+                a[9].clone(),
+            ]
         };
         for inner in seqs(&inner_alpha, 5, if thorough { 5 } else { 4 }, rng) {
             docs.push(vec![Child::Results(inner)]);
@@ -300,14 +351,24 @@ fn parse_token(t: &str) -> Option<Child> {
                 return None;
             }
             let leak = |s: &str| -> &'static str { Box::leak(s.to_string().into_boxed_str()) };
-            Child::Err { ty: leak(f[0]), tag: leak(f[1]), sev: leak(f[2]), extra: 0 }
+            Child::Err {
+                ty: leak(f[0]),
+                tag: leak(f[1]),
+                sev: leak(f[2]),
+                extra: 0,
+            }
         }
         _ if t.starts_with("R:") => {
             let inner = &t[2..];
             if inner == "_" {
                 Child::Results(vec![])
             } else {
-                Child::Results(inner.split('+').map(parse_token).collect::<Option<Vec<_>>>()?)
+                Child::Results(
+                    inner
+                        .split('+')
+                        .map(parse_token)
+                        .collect::<Option<Vec<_>>>()?,
+                )
             }
         }
         _ if t.starts_with('c') => Child::Count(t[1..].parse().ok()?),
@@ -337,7 +398,11 @@ fn gen_valid(kind: &str, rng: &mut Rng) -> Vec<Child> {
             } else {
                 let n = 1 + rng.below(3);
                 for _ in 0..n {
-                    inner.push(if rng.chance(2, 3) { errE.clone() } else { errW.clone() });
+                    inner.push(if rng.chance(2, 3) {
+                        errE.clone()
+                    } else {
+                        errW.clone()
+                    });
                     sprinkle(&mut inner, rng);
                 }
                 inner.push(Child::Count(n));
@@ -356,7 +421,11 @@ fn gen_valid(kind: &str, rng: &mut Rng) -> Vec<Child> {
                 }
             } else {
                 for _ in 0..(1 + rng.below(3)) {
-                    d.push(if rng.chance(2, 3) { errE.clone() } else { errW.clone() });
+                    d.push(if rng.chance(2, 3) {
+                        errE.clone()
+                    } else {
+                        errW.clone()
+                    });
                     sprinkle(&mut d, rng);
                 }
             }
@@ -369,15 +438,25 @@ fn gen_valid(kind: &str, rng: &mut Rng) -> Vec<Child> {
 pub fn main(opts: &Opts) {
     let mut rng = Rng::new(opts.seed);
     let mut sink = Sink::new();
-    let cfg = if opts.extra.iter().any(|e| e == "pinned") { "pinned" } else { "fixed" };
+    let cfg = if opts.extra.iter().any(|e| e == "pinned") {
+        "pinned"
+    } else {
+        "fixed"
+    };
     let mut jobs: Vec<(String, Vec<Child>)> = vec![];
     if let Some(p) = &opts.replay {
         for l in std::fs::read_to_string(p).unwrap().lines() {
             if let Some(d) = l.strip_prefix("case\t") {
                 let d = d.split('\t').next().unwrap();
                 let mut it = d.splitn(2, ';');
-                let (Some(kind), Some(toks)) = (it.next(), it.next()) else { continue };
-                let doc = if toks == "." { Some(vec![]) } else { toks.split(';').map(parse_token).collect::<Option<Vec<_>>>() };
+                let (Some(kind), Some(toks)) = (it.next(), it.next()) else {
+                    continue;
+                };
+                let doc = if toks == "." {
+                    Some(vec![])
+                } else {
+                    toks.split(';').map(parse_token).collect::<Option<Vec<_>>>()
+                };
                 if let Some(doc) = doc {
                     jobs.push((kind.to_string(), doc));
                 }
@@ -395,13 +474,22 @@ pub fn main(opts: &Opts) {
         }
     }
     // thread-level watchdog: a reader loop that never returns cannot be interrupted from inside
-    let results = run_pool_watchdog_opt(jobs.clone(), 16, std::time::Duration::from_secs(20), 8, |(kind, doc)| {
-        let rt = tokio::runtime::Builder::new_current_thread().enable_all().build().unwrap();
-        rt.block_on(async {
-            let out = outcome(&kind, |id| doc_xml(id, &doc)).await;
-            out
-        })
-    });
+    let results = run_pool_watchdog_opt(
+        jobs.clone(),
+        16,
+        std::time::Duration::from_secs(20),
+        8,
+        |(kind, doc)| {
+            let rt = tokio::runtime::Builder::new_current_thread()
+                .enable_all()
+                .build()
+                .unwrap();
+            rt.block_on(async {
+                let out = outcome(&kind, |id| doc_xml(id, &doc)).await;
+                out
+            })
+        },
+    );
     for ((kind, doc), out) in jobs.iter().zip(results) {
         let text = doc_xml("1", doc);
         let toks = doc_tokens(doc);
@@ -417,7 +505,11 @@ pub fn main(opts: &Opts) {
                 continue;
             }
         };
-        sink.corr(&case, format!("xml reply {cfg} {kind} {}", tokenize(&text)), out.clone());
+        sink.corr(
+            &case,
+            format!("xml reply {cfg} {kind} {}", tokenize(&text)),
+            out.clone(),
+        );
         sink.spec(&case, format!("xml spec-reply {kind} {toks} {out}"));
         sink.count(&format!("kind.{kind}"));
         sink.count(&format!("outcome.{}", out.split(':').next().unwrap()));
